@@ -500,7 +500,16 @@ DESCR:
 func postprocessParsed(lookup objLookup) {
 	// In access-list, replace "object-group NAME" by "$REF" in cmd.parsed
 	// and add "NAME" to cmd.ref .
-	for _, l := range lookup["access-list"] {
+	// Process names in fixed order, to always report the same one
+	// of multiple errors.
+	sorted := func(prefix string) [][]*cmd {
+		var result [][]*cmd
+		for _, name := range slices.Sorted(maps.Keys(lookup[prefix])) {
+			result = append(result, lookup[prefix][name])
+		}
+		return result
+	}
+	for _, l := range sorted("access-list") {
 		for _, c := range l {
 			postprocessASAACL(c)
 			// access-list may reference up to five object-groups.
@@ -510,7 +519,7 @@ func postprocessParsed(lookup objLookup) {
 			}
 		}
 	}
-	for _, l := range lookup["ip access-list extended"] {
+	for _, l := range sorted("ip access-list extended") {
 		for _, c := range l[0].sub {
 			postprocessIOSACL(c)
 		}
@@ -531,7 +540,7 @@ func postprocessParsed(lookup objLookup) {
 	// may reference up to 11 $crypto_ipsec_ikev2_ipsec-proposal
 	setTransRef := func(prefix, part string) {
 		cmdPart := " set " + part + " "
-		for _, l := range lookup[prefix] {
+		for _, l := range sorted(prefix) {
 			for _, c := range l {
 				if def, names, found := strings.Cut(c.parsed, cmdPart); found {
 					nl := strings.Fields(names)
@@ -595,7 +604,8 @@ func postprocessParsed(lookup objLookup) {
 	// - check that multiple occurrences with same name but different host
 	//   all use the same ldap-attribute-map
 	// - replace multiple occurrences of this line by one line
-	for name, l := range lookup["aaa-server"] {
+	for _, name := range slices.Sorted(maps.Keys(lookup["aaa-server"])) {
+		l := lookup["aaa-server"][name]
 		ldapMap := " " // invalid name
 		if !strings.HasSuffix(l[0].parsed, "protocol ldap") {
 			continue
